@@ -17,13 +17,12 @@
   where `BIT_SHIFT = BITS.trailing_zeros()`.  Every digit type (u8/u16/u32/u64) has `w = 2^k`, for
   which these are exactly `rhs / w` and `rhs % w` (`Bnum.Shift.digit_split_pow2` in Lemmas/Shift.lean);
   the model uses the latter so that it is meaningful for every `w`.
-  In contrast `rhs & (Self::BITS - 1)` (amount reduction in overflowing_* and rotate_*) is modelled
+  In contrast `rhs & (Self::BITS - 1)` (amount reduction in overflowing_shl / overflowing_shr) is modelled
   literally with `&&&`, because `Self::BITS = w * N` is NOT a power of two in general.
 
-  KNOWN DEFECT kept in the model: `rotate_left` / `rotate_right` reduce the amount with
-  `n & (BITS - 1)`; for `BITS` not a power of two this is not `n mod BITS`
-  (24-bit `rotate_left(8)` is the identity).  `rotateLeftFixed` / `rotateRightFixed` at the end of the
-  file are the model after the planned fix (`n % Self::BITS`).
+  History: before the `fix:` commit in /repo (a393892) `rotate_left` / `rotate_right` reduced the
+  amount with `n & (BITS - 1)`, which is not `n mod BITS` when `BITS` is not a power of two (24-bit
+  `rotate_left(8)` was the identity).  The model below mirrors the repaired code (`n % Self::BITS`).
 -/
 import Bnum.Model.AddSub
 namespace Bnum
@@ -85,13 +84,13 @@ def uncheckedRotateLeft (w : Nat) (a : List Nat) (s : Nat) : List Nat :=
     orHead r.2 r.1
   else out
 
-/-- `rotate_left(n)`: `unchecked_rotate_left(n & BITS_MINUS_1)`  — DEFECT for non-power-of-two BITS -/
+/-- `rotate_left(n)`: `unchecked_rotate_left(n % Self::BITS)` -/
 def rotateLeft (w : Nat) (a : List Nat) (n : Nat) : List Nat :=
-  uncheckedRotateLeft w a (maskBits (w * a.length) n)
+  uncheckedRotateLeft w a (n % (w * a.length))
 
-/-- `rotate_right(n)`: `unchecked_rotate_left(BITS - (n & BITS_MINUS_1))` — same DEFECT -/
+/-- `rotate_right(n)`: `let n = n % Self::BITS; unchecked_rotate_left(Self::BITS - n)` -/
 def rotateRight (w : Nat) (a : List Nat) (n : Nat) : List Nat :=
-  let n' := maskBits (w * a.length) n
+  let n' := n % (w * a.length)
   uncheckedRotateLeft w a (w * a.length - n')
 
 /-- `unchecked_shl_internal(rhs)`: `out = ZERO`, digits `digit_shift ≤ i < N` are written from
@@ -175,24 +174,12 @@ def shl (dbg : Bool) (w : Nat) (a : List Nat) (s : Nat) : Outcome (List Nat) :=
 def shr (dbg : Bool) (w : Nat) (a : List Nat) (s : Nat) : Outcome (List Nat) :=
   if dbg then strictShr w a s else .ok (wrappingShr w a s)
 
-/-! #### the model after the planned fix: commit (`n % Self::BITS` instead of `n & BITS_MINUS_1`) -/
-/-- the model after the planned fix: commit — `unchecked_rotate_left(n % Self::BITS)` -/
-def rotateLeftFixed (w : Nat) (a : List Nat) (n : Nat) : List Nat :=
-  uncheckedRotateLeft w a (n % (w * a.length))
-/-- the model after the planned fix: commit — `let n = n % Self::BITS; unchecked_rotate_left(BITS - n)` -/
-def rotateRightFixed (w : Nat) (a : List Nat) (n : Nat) : List Nat :=
-  let n' := n % (w * a.length)
-  uncheckedRotateLeft w a (w * a.length - n')
 end UI
 
 namespace II
 /-- `from_bits(self.bits.rotate_left(n))` -/
 def rotateLeft (w : Nat) (a : List Nat) (n : Nat) : List Nat := UI.rotateLeft w a n
 def rotateRight (w : Nat) (a : List Nat) (n : Nat) : List Nat := UI.rotateRight w a n
-/-- the model after the planned fix: commit -/
-def rotateLeftFixed (w : Nat) (a : List Nat) (n : Nat) : List Nat := UI.rotateLeftFixed w a n
-/-- the model after the planned fix: commit -/
-def rotateRightFixed (w : Nat) (a : List Nat) (n : Nat) : List Nat := UI.rotateRightFixed w a n
 
 /-- `from_bits(self.bits.unbounded_shl(rhs))` -/
 def unboundedShl (w : Nat) (a : List Nat) (s : Nat) : List Nat := UI.unboundedShl w a s
